@@ -49,6 +49,18 @@ OptRef(S, pen, P, n, m, mx) ==
                         s \in {x \in 0..(T - 1) : T - x >= m /\ T - x <= mx}})
     IN f
 
+\* The same recursion built left to right as a sequence (entry T+1 = optimum of the prefix of length T), for long
+\* series; lemma RefSeqIsRef (Capa.tla) ties it to OptRef on the small constants.
+RECURSIVE OptRefSeqFrom(_, _, _, _, _, _, _)
+OptRefSeqFrom(S, pen, P, n, m, mx, acc) ==
+    LET T == Len(acc) IN
+    IF T > n THEN acc
+    ELSE OptRefSeqFrom(S, pen, P, n, m, mx,
+            Append(acc, Max({acc[T], acc[T] + Pen(S[<<T - 1, T>>], pen.pa, pen.pb, P)} \cup
+                            {acc[s + 1] + Pen(S[<<s, T>>], pen.ca, pen.cb, P) :
+                                 s \in {x \in 0..(T - 1) : T - x >= m /\ T - x <= mx}})))
+OptRefSeq(S, pen, P, n, m, mx) == OptRefSeqFrom(S, pen, P, n, m, mx, <<0>>)
+
 \* The quantifier's side condition on user-defined savings.
 SubAdditive(S, P, n) ==
     \A iv \in Intervals(n) : \A k \in (iv[1] + 1)..(iv[2] - 1) : \A j \in Comp(P) :
